@@ -357,6 +357,44 @@ func c01Cycle(c *explore.Ctx, f *sfnt.Font, sig string, devs any) {
 	c.Outcome(w0)
 }
 
+// c01Contexts: fonts whose GSUB or GPOS table holds a contextual lookup of every form followed by the lookup
+// it runs (class-based rule sets that are absent, present without a rule, or present with a rule).
+func c01Contexts(r *run.Run) {
+	r.Explore(explore.Config{Name: "C01.contexts", Deadline: r.PartDeadline(0.2)},
+		fmt.Sprintf("fonts of each outline kind whose GSUB / GPOS table is [contextual lookup -> simple lookup] for all 6 contextual forms x %d patterns x GSUB / GPOS: same round-trip and fixed-point oracle as C01.generated", len(gen.Patterns)),
+		func(c *explore.Ctx) {
+			kind := c.Choose(3, "outline kind")
+			gpos := c.Bool("gpos")
+			form := c.Choose(len(gen.ContextForms), "form")
+			pat := gen.Patterns[c.Choose(len(gen.Patterns), "pattern")]
+			f, _ := FontFromChoices(gen.FontOpts{NoMeta: true, Compact: true, NoLayout: true}, kind, 2)
+			menu, typ := gen.GsubSimple, uint16(5)
+			if gpos {
+				menu, typ = gen.GposSimple, 7
+			}
+			if form >= 3 {
+				typ++
+			}
+			info := &gtab.Info{
+				ScriptList:  gtab.ScriptListInfo{language.MustParse("und-Zzzz-x-dflt"): {Required: 0xFFFF, Optional: []gtab.FeatureIndex{0}}},
+				FeatureList: []*gtab.Feature{{Tag: "test", Lookups: []gtab.LookupIndex{0}}},
+				LookupList: gtab.LookupList{
+					gen.MakeLookup(typ, gen.Flags[0], []gtab.Subtable{gen.Context(form, pat, []gtab.SeqLookup{{SequenceIndex: 0, LookupListIndex: 1}})}),
+					gen.MakeLookup(menu[0].Type, gen.Flags[0], menu[0].Sub()),
+				},
+			}
+			if gpos {
+				f.Gpos = info
+			} else {
+				f.Gsub = info
+			}
+			desc := fmt.Sprintf("%s, %s %s, gpos %v", gen.KindNames[kind], gen.ContextForms[form], pat.Name, gpos)
+			c.Sample(func() any { return desc })
+			c.Nontrivial()
+			c01Cycle(c, f, gen.KindNames[kind]+" contexts", desc)
+		})
+}
+
 // c01Sizes sweeps the sizes that decide offset widths and table formats inside a whole font: string
 // lengths (CFF String and Name INDEX offset sizes, name table storage) and the number of glyphs
 // (CharStrings INDEX, charset and FDSelect formats, loca, hmtx), one step at a time.
@@ -665,6 +703,7 @@ func init() {
 			"glyph coordinates of generated CFF fonts are 16.16-representable",
 		}
 		c01Sizes(r)
+		c01Contexts(r)
 		// the GSUB/GPOS table of a font: lookup lists at the points where extension records set in (shared with C08)
 		c08ExtensionWindowPart(r, "C01.lookup-list-extension", 1, 4, 4)
 		c01Generated(r)
